@@ -79,7 +79,7 @@ Qed.
 (* ---------- frontend *)
 Lemma fstep_cinv s o : CInv s -> CInv (fstep K s o).
 Proof.
-  intros I. destruct o as [t e|t|t|t|t|l v|k v|k m|d]; cbn [fstep].
+  intros I. destruct o as [t e|t|t|t|t|l v|k v|k m|d|t c]; cbn [fstep].
   - destruct (pend (th s t)); [exact I|]. destruct (tvalid (th s t) && passes_logger s e); [|exact I].
     eapply cinv_vsame; [|exact I]. repeat split. intro u. cbn. unfold upd. destruct (Nat.eqb_spec u t) as [->|]; reflexivity.
   - destruct (memb t (registered s)) eqn:Mb; [exact I|]. cbn [orb]. destruct (tvalid (th s t)) eqn:V; [|exact I]. cbn [negb].
@@ -117,6 +117,7 @@ Proof.
   - eapply cinv_vsame; [|exact I]. repeat split.
   - destruct (existsb (N.eqb m) (sfilt (sk s k)) || (m =? 0)); [exact I|]. eapply cinv_vsame; [|exact I]. repeat split.
   - eapply cinv_vsame; [|exact I]. repeat split.
+  - eapply cinv_vsame; [|exact I]. repeat split. intro u. cbn. unfold upd. destruct (Nat.eqb_spec u t) as [->|]; reflexivity.
 Qed.
 
 (* ---------- backend *)
@@ -184,7 +185,8 @@ Lemma read_loop_valid fuel lim tn : forall x total notes,
   tvalid (fst (fst (fst (read_loop K fuel lim tn x total notes)))) = tvalid x.
 Proof.
   induction fuel as [|f IH]; intros x total notes; cbn [read_loop]; [reflexivity|].
-  destruct (prepare_read ideal (c_cap K) (q x)) as [q1 [off|]]; [|reflexivity].
+  destruct (prepare_read ideal (c_cap K) (q x)) as [q1 r0]. destruct (u_blocked K x); [reflexivity|].
+  destruct r0 as [off|]; [|reflexivity].
   destruct (qev x) as [|e rest]; [reflexivity|].
   destruct (negb (c_grace K =? 0) && (tn <? ets e)); [reflexivity|].
   assert (Hgo : forall c g,
